@@ -1702,7 +1702,9 @@ func (schema *Schema) visitJSONNumber(settings *schemaValidationSettings, value 
 		// "A numeric instance is valid only if division by this keyword's
 		//    value results in an integer."
 		// a zero divisor yields NaN or Inf, which big.NewFloat cannot represent
-		if quotient := value / *v; math.IsNaN(quotient) || math.IsInf(quotient, 0) || !big.NewFloat(quotient).IsInt() {
+		// (beyond 2^52 every float64 quotient is an integer: there the exact remainder decides)
+		if quotient := value / *v; math.IsNaN(quotient) || math.IsInf(quotient, 0) || !big.NewFloat(quotient).IsInt() ||
+			(math.Abs(quotient) >= 1<<52 && math.Mod(value, *v) != 0) {
 			if settings.failfast {
 				return errSchema
 			}
